@@ -100,6 +100,8 @@ def make_weighting(w):
         return scoring.FunctionWeighting(_fn)
     if k == "final":
         return FinalBM25()
+    if k == "reverse":
+        return scoring.ReverseWeighting(scoring.BM25F())
     raise ValueError(k)
 
 
@@ -292,6 +294,13 @@ def run(case, out):
                 if h["k"] in got and not close(h.score, got[h["k"]]):
                     out.fail("c09.score_depends_on_limit", {"q": qj, "doc": h["k"], "limit3": h.score,
                                                             "unlimited": got[h["k"]], "weighting": wcfg})
+                    break
+            # ... nor on whether the matching terms are recorded (which makes every matcher "need the current" entry)
+            rt = s.search(q, limit=None, terms=True)
+            for h in rt:
+                if h["k"] in got and not close(h.score, got[h["k"]]):
+                    out.fail("c09.score_depends_on_terms_recording", {"q": qj, "doc": h["k"], "with_terms": h.score,
+                                                                      "without": got[h["k"]], "weighting": wcfg})
                     break
             rf = s.search(q, limit=None, filter=wq.Every("t"))
             for h in rf:
